@@ -450,6 +450,26 @@ def gen_dns():
     parse = strip_comments(read(os.path.join(CORE, "dns/parse.rs")))
     depth = grab("dns.pointerDepthLimit", fn_body(parse, "get_domain_into"), r"if\s+depth\s*>\s*([0-9]+)\s*\{", "dns/parse.rs get_domain_into", lambda m: int(m.group(1)))
 
+    # the cache key of the real query path (CacheHandler::handle_query): every field from the query's own field
+    cachemod = strip_comments(read(os.path.join(CORE, "dns/cache/mod.rs")))
+    hq = fn_body(cachemod, "handle_query")
+    mck = re.search(r"let ck = CacheKey \{(.*?)\};", hq or "", re.S)
+    ckf = {}
+    if mck:
+        for f, e in re.findall(r"(\w+)\s*:\s*([^,]+?)\s*,", mck.group(1) + ","):
+            ckf[f] = re.sub(r"\s+", "", e)
+    ck_want = {"qname": "msg.in_query.question.qdomain.clone()", "qtype": "msg.in_query.question.qtype",
+               "edns_do": "msg.in_query.edns_do", "cd": "msg.in_query.cd"}
+    mcs = re.search(r"struct CacheKey \{(.*?)\}", cachemod, re.S)
+    ck_struct = sorted(re.findall(r"(?m)^\s*(\w+)\s*:", mcs.group(1))) if mcs else []
+    ck_ok = ckf == ck_want and ck_struct == sorted(ck_want)
+    record("dns.cacheKeyFromQuery", {"literal": ckf, "struct": ck_struct}, "dns/cache/mod.rs CacheKey and handle_query", ok=ck_ok)
+    # cookie keys at start: `new()` rotates twice, so neither the current nor the previous key is the all-zero default
+    ckn = fn_body(mod, "new", after="impl CookieKeys") if False else None
+    mnew = re.search(r"impl CookieKeys \{\s*fn new\(\) -> Self \{(.*?)\n    \}", mod, re.S)
+    rotations = len(re.findall(r"\.rotate\(\)", mnew.group(1))) if mnew else None
+    defaults = bool(mnew and re.search(r"current: Default::default\(\),\s*previous: Default::default\(\),", mnew.group(1)))
+    record("dns.cookieKeyRotationsAtStart", rotations, "dns/mod.rs CookieKeys::new", ok=rotations is not None and defaults)
     gdi = fn_body(parse, "get_domain_into")
     gd = fn_body(parse, "get_domain")
     m_oct = re.search(r"\*octets\s*\+=\s*1\s*\+\s*prefix\s+as\s+usize\s*;\s*if\s+\*octets\s*>\s*([0-9]+)\s*\{\s*return\s+Err", gdi or "")
@@ -505,6 +525,13 @@ def offsetSaturates : Bool := {boolean(store_kind == "saturate")}
 /-- `*octets += 1 + prefix; if *octets > N {{ return Err }}` in `get_domain_into`, the count starting at 1 for the
     root: decoded names longer than N octets are refused ({NO_LIMIT} = the source has no such test) -/
 def nameOctetLimit : Nat := {nat(name_limit)}
+
+/-- the key the real query path looks up and stores under is (name, type, DO, CD) of the query itself -/
+def cacheKeyFromQuery : Bool := {boolean(ck_ok)}
+
+/-- number of `.rotate()` calls `CookieKeys::new` applies to the all-zero default keys (two: current and previous are
+    both random from the start) -/
+def cookieKeyRotationsAtStart : Nat := {nat(rotations)}
 
 /-- `if depth > N` in `get_domain_into` (first call has depth 1) -/
 def pointerDepthLimit : Nat := {nat(depth)}
